@@ -22,6 +22,9 @@ display option (all three loops): `verbose` is passed as True as well as False (
 tqdm_kwargs) in every combination with `validation` and n_times - at random and as a deterministic corpus on every tier.  What fit computes does not depend
 on what it displays: the same batches (fit:batches), modes / gradient switches of every batch and loss evaluation (fit:protocol-trace), history and
 parameters vs the explicit loop, and the same event list of the Lean model (ops "fit" / "fit_num", which have no display option) - failure keys end in :verbose.
+optimiser instances that own more than the current loss reaches (check_shared_optimizer): one stateful instance (SGD momentum / Nesterov / weight decay, Adam, AdamW,
+RMSprop) shared by two hedgers fitted one after the other, used for consecutive fits, owning an unrelated parameter trained before or frozen layers; all owned
+parameters vs the explicit loop with a twin optimiser after every fit, parameters outside the loss unchanged (keys fit:shared-optimizer:*); event lists to op "fit".
 """
 import copy
 import math
@@ -560,6 +563,11 @@ def check(ctx):
              "diverging runs (main loop: float64 and float32, SGD/Adam lr in {1e150, 1e300} resp. {1e20, 1e30}, or last layer x 2^40 under "
              "OCE(exp) / EntropicLoss: steps, history length, history values = means of the explicit loop's evaluations with inf / nan, parameters "
              "and step gradients bitwise with NaN = NaN; fit_num: counts exactly, numbers up to the first quantity that is non-finite or beyond 1e100); "
+             "shared optimiser instances (deterministic corpus of 23 sequences on every tier + random ones): SGD momentum 0.9 / Nesterov 0.5 / weight decay 1/16, Adam, "
+             "Adam weight decay 1/16, AdamW 1/8, RMSprop, RMSprop momentum 0.5, plain SGD; one instance over two models (fits in the orders 01, 10, 010, 001, 011, 101) "
+             "or one model (fits 0, 00), optionally an unrelated parameter (same / own parameter group) on which the caller took 0..2 steps before, frozen first layers, "
+             "the two derivatives on one underlier; float64 / float32; after every fit all owned parameters bitwise = explicit loop with a twin optimiser, parameters "
+             "outside the loss unchanged where the explicit loop leaves them unchanged; every fit's event list to the Lean op fit; "
              "non-trivial = k>=1; distinct = sha1 of canonical case")
 
 
